@@ -213,7 +213,14 @@ def run(ctx):
     else:
         cfg = sel["cfg"]
         pm = sel["parents"]
-        n_tie = n_exit = 0
+        n_tie = n_exit = n_filter = 0
+        validate_names = {"validate", "_validate"}
+        inside_conforming = set()
+        for n_ in walk_local(wu.node):
+            if isinstance(n_, ast.If) and any(isinstance(c, ast.Call) and isinstance(c.func, ast.Name) and c.func.id in validate_names for c in ast.walk(n_.test)):
+                inside_conforming |= {id(x) for st_ in n_.body for x in ast.walk(st_)}
+        if not inside_conforming:
+            ctx.unrecognised("C09.R3", "write_union", wu.where(), "the conformance test of the un-hinted search was not found")
         for node, (ok_, desc, text) in sorted(sel["sites"].items(), key=lambda kv: kv[0].id):
             stmt = node.ast
             guards_ = [(t.ast, lab) for (t, lab) in cfg.guards_of(node) if t.kind == "test"]
@@ -235,6 +242,13 @@ def run(ctx):
                         if isinstance(m_, ast.Name) and any(isinstance(x, ast.Assign) and len(x.targets) == 1 and norm(x.targets[0]) == m_.id and norm(x.value) == norm(o_) for x in sibs):
                             tie = (g, m_.id, bigger_is_other)
             is_float = any("== 'float'" in g for g in gtexts)
+            # between "the datum conforms to this branch" and "this branch is (a candidate for) the choice" nothing else may
+            # look at the datum: a conforming branch passed over because of the value is not the first conforming one
+            datum_p = wu.pos_params[1]
+            for g, lab in guards_:
+                if id(g) in inside_conforming and datum_p in names_in(g) and not any(isinstance(c, ast.Call) and isinstance(c.func, ast.Name) and c.func.id in validate_names for c in ast.walk(g)) and not (tie is not None and g is tie[0]):
+                    n_filter += 1
+                    ctx.violation("C09.R3", f"a conforming branch is considered whatever the datum is: `{norm(g)}`", wu.where(g), f"write_union: selection `{text}` under `{norm(g)}`", "a branch the datum conforms to is skipped depending on the datum's value: the choice is no longer the first conforming branch")
             if tie is not None:
                 n_tie += 1
                 g, mvar, bigger_is_other = tie
@@ -276,6 +290,29 @@ def run(ctx):
                                 float_edges.add((t, m, lab))
                 again = lp in cfg.reachable_from(node, skip_labels=("exc",), skip_edges=float_edges)
                 ctx.check("C09.R3", "a conforming non-record branch ends the search", not again, wu.where(stmt), f"write_union: after `{text}` the loop continues", "without leaving the loop a later conforming branch would replace the first one")
+        # the record arm is entered on the kind of the branch's *definition*: a branch that only names a record type has
+        # the name as its own kind
+        named_p = wu.pos_params[3]
+        rec_tests = [n_ for n_ in walk_local(wu.node) if id(n_) in inside_conforming and isinstance(n_, ast.Compare) and len(n_.ops) == 1 and isinstance(n_.ops[0], ast.Eq) and norm(n_.comparators[0]) == "'record'"]
+
+        def _vals(e):
+            return list(assigned_values(wu.node, e.id)) if isinstance(e, ast.Name) and e.id not in wu.pos_params else [e]
+
+        def _resolved(e, depth=3):
+            for v in _vals(e):
+                if any((isinstance(x, ast.Subscript) and norm(x.value) == named_p) or (isinstance(x, ast.Call) and norm(x.func) == f"{named_p}.get") for x in ast.walk(v)):
+                    return True
+                if depth and v is not e and any(_resolved(x, depth - 1) for x in ast.walk(v) if isinstance(x, ast.Name) and x.id not in wu.pos_params):
+                    return True
+            return False
+
+        for rt in rec_tests:
+            kinds_ = [v for v in _vals(rt.left) if isinstance(v, ast.Call) and isinstance(v.func, ast.Name) and v.func.id == "extract_record_type" and len(v.args) == 1]
+            if not kinds_:
+                ctx.unrecognised("C09.R3", "record arm", wu.where(rt), f"the kind compared with 'record' is not an extract_record_type(..) result: {norm(rt.left)}")
+                continue
+            ok_ = any(_resolved(v.args[0]) for v in kinds_)
+            ctx.check("C09.R3", "the record arm is entered on the kind of the resolved definition of a by-name branch", ok_, wu.where(rt), f"write_union: `{norm(rt)}` with {[norm(v) for v in kinds_]}", "a branch that refers to a record by name is not scored as a record: the first such branch wins instead of the one sharing most field names")
         if n_tie == 0:
             ctx.unrecognised("C09.R3", "write_union", wu.where(), "record tie-break comparison (running maximum) not found")
         if n_exit == 0:
